@@ -17,7 +17,9 @@ Clauses(ev) ==
     V_Reproducible    |-> ev.same_stream_same_velocities,
     V_StreamAdvances  |-> ev.stream_advanced,
     V_NoForeign       |-> ev.foreign = 0,
-    V_Distribution    |-> ev.stat_checked => (ev.mean_ok /\ ev.var_ok) ]
+    V_Distribution    |-> ev.stat_checked => (ev.mean_ok /\ ev.var_ok),
+    \* the ensemble's zero_momentum setting is what every modify_velocities call of a move is handed
+    V_RequestReachesEngine |-> ev.request_ok ]
 Failed(rec) == {n \in DOMAIN rec : ~rec[n]}
 Note(idx, names) == LET RECURSIVE F(_)
                         F(S) == IF S = {} THEN <<>> ELSE
